@@ -163,7 +163,8 @@ func getNodeWhitespace(nodes []TemplateFileNode, i int) string {
 
 func endsWithComment(s string) bool {
 	lineSlice := strings.Split(s, "\n")
-	return strings.HasPrefix(lineSlice[len(lineSlice)-1], "//")
+	// The Go code is written through gofmt, which removes the indentation of the comment line.
+	return strings.HasPrefix(strings.TrimSpace(lineSlice[len(lineSlice)-1]), "//")
 }
 
 // TemplateFileNode can be a Template, CSS, Script or Go.
